@@ -8,6 +8,7 @@ from numba import njit
 from skglm.solvers import BaseSolver
 
 from sklearn.exceptions import ConvergenceWarning
+from skglm import _verif
 
 
 class PDCD_WS(BaseSolver):
@@ -120,6 +121,9 @@ class PDCD_WS(BaseSolver):
         p_objs = []
         stop_crit = 0.
         all_features = np.arange(n_features)
+        if _verif.ON:
+            _verif.emit("init", solver=self, X=X, y=y, datafit=datafit,
+                        penalty=penalty, w=w, Xw=Xw)
 
         for iteration in range(self.max_iter):
 
@@ -128,6 +132,8 @@ class PDCD_WS(BaseSolver):
             opt_dual = _score_dual(y, z, Xw, datafit, dual_step)
 
             stop_crit = max(max(opts_primal), opt_dual)
+            if _verif.ON:
+                _verif.emit("outer", t=iteration, stop_crit=stop_crit, w=w, Xw=Xw, z=z)
 
             if self.verbose:
                 current_p_obj = datafit.value(y, w, Xw) + penalty.value(w)
@@ -145,6 +151,8 @@ class PDCD_WS(BaseSolver):
 
             # similar to np.argsort()[-ws_size:] but without full sort
             ws = np.argpartition(opts_primal, -ws_size)[-ws_size:]
+            if _verif.ON:
+                _verif.emit("ws", t=iteration, ws=ws)
 
             # solve sub problem
             # inplace update of w, Xw, z, z_bar
@@ -154,6 +162,8 @@ class PDCD_WS(BaseSolver):
 
             current_p_obj = datafit.value(y, w, Xw) + penalty.value(w)
             p_objs.append(current_p_obj)
+            if _verif.ON:
+                _verif.emit("record", t=iteration, p_obj=current_p_obj, w=w, Xw=Xw)
         else:
             warnings.warn(
                 f"PDCD_WS did not converge for tol={self.tol:.3e} "
